@@ -1,6 +1,7 @@
 import SluProofs.Lemmas.Solve
 import SluProofs.Lemmas.SolveT
 import SluProofs.Lemmas.MyBlas2
+import SluProofs.Lemmas.ColBmod
 import SluProofs.Props.C02
 import SluProofs.Props.C04
 /-
@@ -454,3 +455,90 @@ example : trsvLN exF exB ≠ exB := by decide +kernel
 example := spTrsv_notrans_eq_mirrored false exF exB (by decide +kernel) exF_blocks
 
 end Slu.MyBlas2
+
+/-! ## `[sdcz]column_bmod` (non-vendor build): the caller of the mirrored kernels
+
+`Slu.ColBmod.colBmod` (Slu/Model/ColBmod.lean) mirrors SRC/[sdcz]column_bmod.c statement by statement
+(family `colbmod`: direct calls, whole buffers compared bit for bit).  The theorems below are its
+exact-arithmetic meaning, for every segment size (the three hand-written cases 1, 2, 3 and the
+`lsolve` + `matvec` case), every leading dimension, every `fpanelc`. -/
+namespace Slu.ColBmod
+open Slu Finset Slu.Kernels Slu.MyBlas2
+
+variable {K : Type} [Field K] [Inhabited K]
+
+/-- the integers of a segment are consistent (`nsupc = no_zeros + segsze`, `segsze ≥ 1`, the loop over
+the rows below runs `nrow` times) as soon as the representative lies in the panel and after the first
+nonzero, and the supernode has at least `krep - fsupc + 1` rows -/
+theorem segGeom_arith (fpanelc : Nat) (xsup supno xlsub xlusup repfnz : Array Nat) (krep : Nat)
+    (h1 : xsup[supno[krep]!]! ≤ krep) (h2 : fpanelc ≤ krep) (h3 : repfnz[krep]! ≤ krep)
+    (h4 : xsup[supno[krep]!]! ≤ repfnz[krep]!)
+    (h5 : krep - xsup[supno[krep]!]! + 1 ≤ xlsub[xsup[supno[krep]!]! + 1]! - xlsub[xsup[supno[krep]!]!]!) :
+    (segGeom fpanelc xsup supno xlsub xlusup repfnz krep).noZeros + (segGeom fpanelc xsup supno xlsub xlusup repfnz krep).segsze =
+      (segGeom fpanelc xsup supno xlsub xlusup repfnz krep).nsupc ∧
+    1 ≤ (segGeom fpanelc xsup supno xlsub xlusup repfnz krep).segsze ∧
+    (segGeom fpanelc xsup supno xlsub xlusup repfnz krep).cnt = (segGeom fpanelc xsup supno xlsub xlusup repfnz krep).nrow := by
+  unfold segGeom
+  simp only
+  omega
+
+/-- **C01 (one U-segment of `column_bmod`, all four size cases).**  `krep` is the representative of a
+supernode other than `jcol`'s; `g` the integers the routine derives (`segGeom`); `base` the address of
+the diagonal cell (kfnz, kfnz) of the supernode's block; `row t` the subscript of the `t`-th row from
+`kfnz` on.  Hypotheses (`SegOK`): `nsupc = no_zeros + segsze`, `segsze ≥ 1`, these rows are distinct and
+inside `dense`; for `segsze ≥ 4` `tempv` has `segsze + nrow` zero cells.  After the iteration, with
+`u = fwdSub` of the UNIT lower triangular diagonal block rows `kfnz..krep` applied to the gathered
+`dense`: (i) the segment rows of `dense` hold `u`; (ii) each row below holds
+`dense[row] − Σ_r L(row, r)·u_r`; (iii) every other cell of `dense` is unchanged; `tempv` is back to what
+it was (zero); `lusup`, `xlusup` are untouched. -/
+theorem colBmod_segment_spec (cplx segOps : Bool) (jcol fpanelc : Nat) (xsup supno lsub xlsub repfnz : Array Nat)
+    (krep : Nat) (st : SnodeSt K) (g : Seg) (hg : g = segGeom fpanelc xsup supno xlsub st.xlusup repfnz krep)
+    (hne : supno[jcol]! ≠ supno[krep]!) (ok : SegOK lsub g st.dense)
+    (htv : 4 ≤ g.segsze → g.segsze + g.nrow ≤ st.tempv.size)
+    (htz : 4 ≤ g.segsze → ∀ i, i < g.segsze + g.nrow → st.tempv[i]! = 0) :
+    let base := g.luptr + (g.nsupr * g.noZeros + g.noZeros)
+    let row := fun t => lsub[g.lptr + g.noZeros + t]!
+    let u := fwdSub (fun i r => st.lusup[base + (r * g.nsupr + i)]!) (fun _ => 1) (fun t => st.dense[row t]!) g.segsze
+    let o := colSegment cplx segOps jcol fpanelc xsup supno lsub xlsub repfnz krep st
+    o.dense.size = st.dense.size ∧
+    (∀ s, s < g.segsze → o.dense[row s]! = u.getD s 0) ∧
+    (∀ i, i < g.nrow → o.dense[row (g.segsze + i)]! =
+      st.dense[row (g.segsze + i)]! - ∑ q ∈ range g.segsze, st.lusup[base + (q * g.nsupr + (g.segsze + i))]! * u.getD q 0) ∧
+    (∀ p, (∀ t, t < g.segsze + g.nrow → row t ≠ p) → o.dense[p]! = st.dense[p]!) ∧
+    o.tempv.size = st.tempv.size ∧ (∀ p : Nat, o.tempv[p]! = st.tempv[p]!) ∧
+    o.lusup = st.lusup ∧ o.xlusup = st.xlusup := by
+  intro base row u o
+  have hz : ∀ s, s < g.segsze → (fun t => u.getD t 0) s = st.dense[lsub[g.lptr + g.noZeros + s]!]! -
+      ∑ q ∈ range s, (fun t => u.getD t 0) q * st.lusup[g.luptr + (g.nsupr * g.noZeros + g.noZeros) + (q * g.nsupr + s)]! := by
+    intro s hs
+    show u.getD s 0 = _
+    rw [fwd_rec _ _ _ g.segsze s hs, div_one]
+    congr 1
+    exact Finset.sum_congr rfl (fun j _ => mul_comm _ _)
+  obtain ⟨⟨p1, p2, p3, p4⟩, t1, t2⟩ := segUpdate_spec' cplx lsub g st.lusup st.dense st.tempv (fun t => u.getD t 0) ok htv htz hz
+  have hd : o.dense = (segUpdate cplx lsub g st.lusup st.dense st.tempv).1 := by
+    show (colSegment cplx segOps jcol fpanelc xsup supno lsub xlsub repfnz krep st).dense = _
+    unfold colSegment; rw [if_pos hne, ← hg]
+  have ht : o.tempv = (segUpdate cplx lsub g st.lusup st.dense st.tempv).2 := by
+    show (colSegment cplx segOps jcol fpanelc xsup supno lsub xlsub repfnz krep st).tempv = _
+    unfold colSegment; rw [if_pos hne, ← hg]
+  have hl : o.lusup = st.lusup := by
+    show (colSegment cplx segOps jcol fpanelc xsup supno lsub xlsub repfnz krep st).lusup = _
+    unfold colSegment; rw [if_pos hne]
+  have hx : o.xlusup = st.xlusup := by
+    show (colSegment cplx segOps jcol fpanelc xsup supno lsub xlsub repfnz krep st).xlusup = _
+    unfold colSegment; rw [if_pos hne]
+  rw [hd, ht]
+  refine ⟨p1, p2, fun i hi => ?_, p4, t1, t2, hl, hx⟩
+  rw [p3 i hi]
+  congr 1
+  exact Finset.sum_congr rfl (fun j _ => mul_comm _ _)
+
+/-- a listed representative of `jcol`'s OWN supernode is skipped (`jsupno == ksupno`) -/
+theorem colBmod_segment_own (cplx segOps : Bool) (jcol fpanelc : Nat) (xsup supno lsub xlsub repfnz : Array Nat)
+    (krep : Nat) (st : SnodeSt K) (he : supno[jcol]! = supno[krep]!) :
+    colSegment cplx segOps jcol fpanelc xsup supno lsub xlsub repfnz krep st = st := by
+  unfold colSegment
+  rw [if_neg (by simpa using he)]
+
+end Slu.ColBmod
